@@ -20,12 +20,13 @@ SPEC = {
     "modules": ["HC.Props.C19"],
     "extracted": ["Cli", "Consts", "ConfigSites"],
     "technique": "Lean 4: `decide` over the CLI table regenerated from __main__.py + a general semantics theorem for the wiring; structural proofs for bind parsing, root_path, date arithmetic (omega) — tied by differential execution of every loader, every flag, bind shapes and sampled timestamps",
-    "level_text": "Proved in Lean: the command-line table extracted from the current __main__.py is wired one-to-one per a hand-written specification (decided exhaustively), and for ANY set of given flags the executed assignments are exactly 'application_path, then each given flag's own attribute := its own value' (cli_semantics, cli_sets_exactly, cli_pair, cli_absent_flag_is_noop); root_path is the given value minus trailing slashes; a bind given as str equals the one-element list; all loaders reduce to from_mapping: the object loaders drop exactly dunder names and imported modules - the filter clauses are extracted from Config.from_object, so a class- or function-valued setting (logger_class) is handed on like any other (from_object_filter_spec, loaders_agree, from_object_drops, from_object_callable_setting) - and one more key changes exactly its own attribute; host:port / bare host / [v6]:port / unix: / fd:// parse to the intended family, address and port for every host and port string of the stated shape; the date header is a 29-character IMF-fixdate with every field in range for every second up to year 9999; response headers are exactly date/server/alt-svc per the switches. Tie: every flag alone and in pairs through the real main(), every public key (logger_class, Logger instances and ssl enums included) through all loaders - mapping, keywords, object, class, module, module.attribute, Python file, TOML file and the command line's -c file: / -c python: / -c toml (files written to disk), bind strings through the real _create_sockets (recorded bind() arguments and real sockets), timestamps against wsgiref's formatter.",
+    "level_text": "Proved in Lean: the command-line table extracted from the current __main__.py is wired one-to-one per a hand-written specification (decided exhaustively), and for ANY set of given flags the executed assignments are exactly 'application_path, then each given flag's own attribute := its own value' (cli_semantics, cli_sets_exactly, cli_pair, cli_absent_flag_is_noop); root_path is the given value minus trailing slashes; a bind given as str equals the one-element list; all loaders reduce to from_mapping: the object loaders drop exactly dunder names and imported modules - the filter clauses are extracted from Config.from_object, so a class- or function-valued setting (logger_class) is handed on like any other (from_object_filter_spec, loaders_agree, from_object_drops, from_object_callable_setting) - and one more key changes exactly its own attribute; from_mapping hands EVERY key to setattr - the statements of its loop are extracted, none skips a key - so a setting whose attribute cannot be read back (the write-only cert_reqs, the annotation-only application_path) is stored like any other, cert_reqs = n storing VerifyMode(n) under verify_mode exactly as --cert-reqs n does (from_mapping_guard_spec, cert_reqs_loaded, application_path_loaded, from_mapping_stores); the address family of an inet bind is decided by the parsed host alone - AF_INET6 iff it contains a colon, with or without brackets; the test is extracted from _create_sockets (bind_family_spec, bind_family_of_host, bind_bare_v6_unbracketed); host:port / bare host / [v6]:port / unix: / fd:// parse to the intended family, address and port for every host and port string of the stated shape; the date header is a 29-character IMF-fixdate with every field in range for every second up to year 9999; response headers are exactly date/server/alt-svc per the switches. Tie: every flag alone and in pairs through the real main(), every public key (logger_class, Logger instances and ssl enums included) through all loaders - mapping, keywords, object, class, module, module.attribute, Python file, TOML file, the command line's -c file: / -c python: / -c toml (files written to disk) and the setting's own command-line flag where the flag can spell the value; keys that cannot be read back included (cert_reqs judged on verify_mode AND on the TLS context create_ssl_context() builds, application_path); a loader that raises is a violation, not a harness error; bind strings (bracketed and unbracketed IPv6 literals, stream and datagram sockets) through the real _create_sockets (recorded bind() arguments and real sockets), timestamps against wsgiref's formatter.",
     "level_note": "Trusted: Lean kernel; extractor (argparse table and wiring recognised by shape, unknown shapes fail the tie); hand-written model HC/Pure/Config.lean; argparse, tomllib, importlib and the socket layer are runtime behaviour compared by execution only; Python int() accepts more spellings than the model's decimal parser (generator stays within decimal digits).",
-    "rule": "CLI: every wired flag alone (exhaustive) + flag pairs (quick: sample, thorough: all) with distinct random values, with/without a TOML file setting the same key; loaders: every public Config key x its value types (literals; a Logger subclass and a logger factory function for logger_class; logging.Logger instances; ssl.VerifyMode / VerifyFlags members) x 11 loaders, TOML only for values TOML can spell; binds: shape grid x hosts x ports via recorded bind() arguments, plus real sockets; dates: boundary + random timestamps. distinct = (family, flag | flag pair | (loader,key) | bind shape | date class); non-trivial = a value different from the default is supplied",
+    "rule": "CLI: every wired flag alone (exhaustive) + flag pairs (quick: sample, thorough: all) with distinct random values, with/without a TOML file setting the same key; loaders: every public Config key x its value types (literals; a Logger subclass and a logger factory function for logger_class; logging.Logger instances; ssl.VerifyMode / VerifyFlags members; cert_reqs 0/1/2 and a member; application_path) x 13 loaders (an instance whose class carries the setting included), TOML / the flag only for values they can spell; binds: shape grid (host:port, bare host, [v6]:port, [v6], bare v6 without brackets, v6 without brackets that also reads as host:port, unix, fd) x hosts x ports x socket type via recorded bind() arguments, plus real sockets (incl. a real bind of `::`); dates: boundary + random timestamps. distinct = (family, flag | flag pair | (loader,key) | bind shape | date class); non-trivial = a value different from the default is supplied",
     "trusted": ["argparse / tomllib / importlib / socket behaviour (compared by execution, not modelled)"],
     "partial": ["bind_host_port excludes the host spelled `unix` (`unix:80` is a unix-socket path by design of the syntax)",
-                "bare bracketed IPv6 without a port is outside the proved shapes; see known finding F22 if listed"],
+                "bare bracketed IPv6 without a port is outside the proved shapes; see known finding F22 if listed",
+                "an IPv6 literal WITHOUT brackets whose last group is a decimal number (`::1`, `2001:db8::370:7334`) is also of the shape host:port and is read so (bind_unbracketed_decimal_tail); the monitor accepts either reading and demands AF_INET6"],
     "assumptions": ["values round-trip through TOML / Python source (checked by the run itself: a loader that cannot represent a value is skipped for that value and counted)"],
 }
 
@@ -222,6 +223,28 @@ def check_cli(ctx: Ctx) -> None:
                 ctx.disagree("c19.cli", case, asg, bad)
 
 
+def _parser_actions() -> Dict[str, Any]:
+    """dest -> the real argparse action (its `type` callable spells a value the way the command line does)"""
+    import argparse
+    import hypercorn.__main__ as hm
+    captured = {}
+    orig = argparse.ArgumentParser.parse_args
+
+    def fake(self, *a, **k):
+        captured["p"] = self
+        raise KeyboardInterrupt
+
+    argparse.ArgumentParser.parse_args = fake
+    try:
+        try:
+            hm.main(["x:y"])
+        except KeyboardInterrupt:
+            pass
+    finally:
+        argparse.ArgumentParser.parse_args = orig
+    return {act.dest: act for act in captured["p"]._actions if act.dest != "help"}
+
+
 def _args_from_parser() -> List[dict]:
     import argparse
     import hypercorn.__main__ as hm
@@ -258,9 +281,10 @@ def _args_from_parser() -> List[dict]:
 class PyVal:
     """a value with the Python source that denotes it (for configuration files) — `toml` when TOML can spell it too"""
 
-    def __init__(self, value: Any, expr: Optional[str] = None, imports: str = "", toml: Optional[bool] = None) -> None:
+    def __init__(self, value: Any, expr: Optional[str] = None, imports: str = "", toml: Optional[bool] = None, cli: Optional[str] = None) -> None:
         self.value, self.expr, self.imports = value, (repr(value) if expr is None else expr), imports
         self.toml = (expr is None and not isinstance(value, dict)) if toml is None else toml
+        self.cli = cli          # how the command line spells the value, when str(value) is not it
 
 
 HELPER_SRC = """from hypercorn.logging import Logger
@@ -286,7 +310,7 @@ def _key_values(rng, helper: Optional[str] = None) -> Dict[str, List[PyVal]]:
     for name in sorted(n for n in vars(Config) if not n.startswith("_")):
         d = vars(Config)[name]
         if isinstance(d, (property, classmethod, staticmethod)) or (callable(d) and not isinstance(d, type)):
-            continue                       # methods and properties (bind, root_path, log ... are handled below)
+            continue                       # methods and properties (bind, root_path, cert_reqs, log ... are handled below)
         if isinstance(d, type):
             vals: List[Any] = []           # a class-valued setting (logger_class): values come from the helper module
         elif isinstance(d, bool):
@@ -314,12 +338,19 @@ def _key_values(rng, helper: Optional[str] = None) -> Dict[str, List[PyVal]]:
     out["insecure_bind"] = [PyVal("127.0.0.1:80"), PyVal(["c:3"])]
     out["quic_bind"] = [PyVal("127.0.0.1:443")]
     out["root_path"] = [PyVal("/api/"), PyVal("/x//"), PyVal("/plain"), PyVal("")]
+    # settings whose attribute cannot be READ on a fresh Config: declared by annotation only (`application_path: str`), or a
+    # property without a getter (`cert_reqs`, the deprecated spelling of verify_mode: stores VerifyMode(value))
+    for name in sorted(n for n in getattr(Config, "__annotations__", {}) if not n.startswith("_") and n not in vars(Config)):
+        out[name] = [PyVal(f"pkg{rng.randint(0, 99)}.mod:app"), PyVal("")]
+    for name, (_attr, conv) in WRITE_ONLY.items():
+        if isinstance(vars(Config).get(name), property):
+            out[name] = [PyVal(n) for n in (0, 1, 2)] + [PyVal(ssl.VerifyMode.CERT_REQUIRED, "ssl.VerifyMode.CERT_REQUIRED", "import ssl\n", cli="2")]
     # values that are not literals: Logger instances, ssl enum members, and the callable setting logger_class
     for key in ("accesslog", "errorlog"):
         nm = f"c19.{key}.{rng.randint(0, 99)}"
         out[key].append(PyVal(logging.getLogger(nm), f"logging.getLogger({nm!r})", "import logging\n"))
     mode = rng.choice(["CERT_OPTIONAL", "CERT_REQUIRED"])
-    out["verify_mode"].append(PyVal(ssl.VerifyMode[mode], f"ssl.VerifyMode.{mode}", "import ssl\n"))
+    out["verify_mode"].append(PyVal(ssl.VerifyMode[mode], f"ssl.VerifyMode.{mode}", "import ssl\n", cli=mode))
     flag = rng.choice(["VERIFY_X509_STRICT", "VERIFY_CRL_CHECK_LEAF"])
     out["verify_flags"].append(PyVal(ssl.VerifyFlags[flag], f"ssl.VerifyFlags.{flag}", "import ssl\n"))
     if helper is not None:
@@ -327,6 +358,65 @@ def _key_values(rng, helper: Optional[str] = None) -> Dict[str, List[PyVal]]:
         out["logger_class"] += [PyVal(mod.QuietLogger, f"{helper}.QuietLogger", f"import {helper}\n"),
                                 PyVal(mod.make_logger, f"{helper}.make_logger", f"import {helper}\n")]
     return out
+
+
+# write-only settings (a property with a setter and no getter): key -> (the attribute its setter stores, the stored value)
+WRITE_ONLY = {"cert_reqs": ("verify_mode", lambda v: ssl.VerifyMode(v))}
+# settings that shape the TLS context: their effect is observed on `create_ssl_context()` as well
+TLS_KEYS = {"verify_mode": "verify_mode", "cert_reqs": "verify_mode", "verify_flags": "verify_flags"}
+DATA = Path(__file__).resolve().parents[1] / "data"
+
+
+def _tls_effect(cfg) -> Any:
+    """(verify_mode, verify_flags) of the context the server would build (a certificate is supplied on a copy of the settings)"""
+    import copy
+    c = copy.copy(cfg)
+    c.certfile, c.keyfile = str(DATA / "c19_cert.pem"), str(DATA / "c19_key.pem")
+    ctx = c.create_ssl_context()
+    return (ctx.verify_mode, ctx.verify_flags)
+
+
+class Failed:
+    """a loader that raised instead of returning a Config"""
+
+    def __init__(self, e: BaseException) -> None:
+        self.error = f"{type(e).__name__}: {e}"[:300]
+
+
+def _load(fn, *a, **k):
+    try:
+        with warnings.catch_warnings():
+            warnings.simplefilter("ignore")
+            return fn(*a, **k)
+    except BaseException as e:  # noqa  (SystemExit from argparse included)
+        if isinstance(e, KeyboardInterrupt):
+            raise
+        return Failed(e)
+
+
+def _cli_tokens(act: Any, key: str, pv: "PyVal") -> Optional[List[str]]:
+    """argv tokens that supply `pv.value` through the setting's own flag - None when the command line cannot spell the value"""
+    v = pv.value
+    if key == "application_path":
+        return None if (not isinstance(v, str) or v.startswith("-") or v == "") else []
+    flag = act.option_strings[-1]
+    kind = type(act).__name__
+    if kind == "_StoreTrueAction":
+        return [flag] if v is True else None
+    if kind == "_AppendAction":
+        vals = [v] if isinstance(v, str) else v
+        if not (isinstance(vals, list) and vals and all(isinstance(x, str) and not x.startswith("-") for x in vals)):
+            return None
+        return [t for x in vals for t in (flag, x)]
+    spelled = pv.cli if pv.cli is not None else (str(v) if type(v) in (int, float, str) else None)
+    if spelled is None or spelled.startswith("-"):
+        return None
+    try:
+        parsed = (act.type or str)(spelled)
+    except Exception:
+        return None
+    same = parsed == v and (type(parsed) is type(v) or key in WRITE_ONLY)
+    return [flag, spelled] if same else None
 
 
 def _attr_kind(v: Any) -> str:
@@ -340,6 +430,8 @@ def _attr_kind(v: Any) -> str:
 
 def _jv(v: Any) -> Any:
     """JSON view of a stored value (what the model carries opaquely)"""
+    if isinstance(v, ssl.VerifyMode):
+        return {"VerifyMode": int(v)}      # the model knows this one: the `cert_reqs` setter builds it from a number
     try:
         if json.loads(json.dumps(v)) == v and not isinstance(v, tuple):
             return v
@@ -354,7 +446,7 @@ def _model_attrs(obj: Any) -> List[list]:
             for n in dir(obj)]
 
 
-LOADERS = ["mapping", "kwargs", "object", "class", "module", "module.attr", "pyfile", "toml", "cli_file", "cli_python", "cli_toml"]
+LOADERS = ["mapping", "kwargs", "object", "class", "instance", "module", "module.attr", "pyfile", "toml", "cli_file", "cli_python", "cli_toml", "cli_flag"]
 
 
 def check_loaders(ctx: Ctx) -> None:
@@ -367,16 +459,30 @@ def check_loaders(ctx: Ctx) -> None:
     (tmp / f"{helper}.py").write_text(HELPER_SRC)
     reqs, metas = [], []
     made: List[str] = [helper]
+    MISSING = object()
     try:
         kv = _key_values(rng, helper)
-        public = sorted(n for n in vars(Config) if not n.startswith("_") and not isinstance(vars(Config)[n], (classmethod, staticmethod))
-                        and (isinstance(vars(Config)[n], (property, type)) or not callable(vars(Config)[n])))
-        settable = [n for n in public if not (isinstance(vars(Config)[n], property) and vars(Config)[n].fset is None)]
-        uncovered = [n for n in settable if not kv.get(n) and n != "cert_reqs"]     # cert_reqs: write-only alias, via the CLI family
-        ctx.extra["loader_keys"] = {"settable": len(settable), "covered": len([n for n in settable if kv.get(n)]), "uncovered": uncovered}
+        # every name a configuration source may set: public names bound in the class body (plain defaults, classes,
+        # properties with a setter - write-only ones included) and names the class only annotates
+        declared = dict(vars(Config))
+        declared.update({n: MISSING for n in getattr(Config, "__annotations__", {}) if n not in declared})
+        public = sorted(n for n in declared if not n.startswith("_") and not isinstance(declared[n], (classmethod, staticmethod))
+                        and (declared[n] is MISSING or isinstance(declared[n], (property, type)) or not callable(declared[n])))
+        settable = [n for n in public if not (isinstance(declared[n], property) and declared[n].fset is None)]
+        unreadable = [n for n in settable if declared[n] is MISSING or (isinstance(declared[n], property) and declared[n].fget is None)]
+        uncovered = [n for n in settable if not kv.get(n)]
+        uncovered += [n for n in unreadable if isinstance(declared[n], property) and n not in WRITE_ONLY]     # no oracle for what its setter stores
+        ctx.extra["loader_keys"] = {"settable": len(settable), "covered": len([n for n in settable if kv.get(n)]), "uncovered": uncovered,
+                                    "unreadable": unreadable}
         if uncovered:
             ctx.violation("loader_key_coverage", {"family": "loaders", "keys": uncovered}, "the generator has no value for these settings",
                           {"family": "loaders", "coverage": True})
+        # the setting's own command-line flag (the positional argument for application_path), as one more loader
+        actions = _parser_actions()
+        key_dest = {"application_path": "application"}
+        for dest, attr in PY_SPEC.items():
+            if dest in actions and dest not in ("access_log", "error_log"):          # deprecated second spellings
+                key_dest.setdefault(dest if dest in WRITE_ONLY else attr, dest)
         n = 0
         for key, vals in kv.items():
             for pv in vals:
@@ -384,60 +490,83 @@ def check_loaders(ctx: Ctx) -> None:
                 n += 1
                 results: Dict[str, Any] = {}
                 objs: Dict[str, Any] = {}
-                results["mapping"] = Config.from_mapping({key: v})
-                results["kwargs"] = Config.from_mapping(**{key: v})
+                results["mapping"] = _load(Config.from_mapping, {key: v})
+                results["kwargs"] = _load(Config.from_mapping, **{key: v})
                 obj = type("O", (), {})()
                 setattr(obj, key, v)
                 objs["object"] = obj
-                results["object"] = Config.from_object(obj)
+                results["object"] = _load(Config.from_object, obj)
                 objs["class"] = type("Settings", (), {key: v})
-                results["class"] = Config.from_object(objs["class"])
+                results["class"] = _load(Config.from_object, objs["class"])
+                if _attr_kind(v) != "function":                 # (Python binds a function-valued class attribute to the instance: another value)
+                    objs["instance"] = objs["class"]()          # an instance whose CLASS carries the setting (nothing in its own __dict__)
+                    results["instance"] = _load(Config.from_object, objs["instance"])
                 modname = f"c19mod_{tag}_{n}"
                 (tmp / f"{modname}.py").write_text(f"import os\n{pv.imports}{key} = {pv.expr}\n__dunder_x__ = 1\n")
                 objs["module"] = importlib.import_module(modname)
-                results["module"] = Config.from_object(modname)
+                results["module"] = _load(Config.from_object, modname)
                 attrmod = f"c19att_{tag}_{n}"
                 (tmp / f"{attrmod}.py").write_text(f"{pv.imports}\n\nclass settings:\n    {key} = {pv.expr}\n")
-                results["module.attr"] = Config.from_object(f"{attrmod}.settings")
+                results["module.attr"] = _load(Config.from_object, f"{attrmod}.settings")
                 (tmp / f"cfg{n}.py").write_text(f"import sys\n{pv.imports}{key} = {pv.expr}\n")
-                results["pyfile"] = Config.from_pyfile(str(tmp / f"cfg{n}.py"))
-                results["cli_file"] = run_main(["-c", f"file:{tmp / f'cfg{n}.py'}", "app:app"])
+                results["pyfile"] = _load(Config.from_pyfile, str(tmp / f"cfg{n}.py"))
+                results["cli_file"] = _load(run_main, ["-c", f"file:{tmp / f'cfg{n}.py'}", "app:app"])
                 sys.modules.pop(modname, None)
-                results["cli_python"] = run_main(["-c", f"python:{modname}", "app:app"])
+                results["cli_python"] = _load(run_main, ["-c", f"python:{modname}", "app:app"])
                 made += [modname, attrmod]
                 if pv.toml:
                     (tmp / f"cfg{n}.toml").write_text(f"{key} = {json.dumps(v)}\n")
-                    results["toml"] = Config.from_toml(str(tmp / f"cfg{n}.toml"))
-                    results["cli_toml"] = run_main(["-c", str(tmp / f"cfg{n}.toml"), "app:app"])
+                    results["toml"] = _load(Config.from_toml, str(tmp / f"cfg{n}.toml"))
+                    results["cli_toml"] = _load(run_main, ["-c", str(tmp / f"cfg{n}.toml"), "app:app"])
                 else:
                     ctx.count("loaders.toml_skipped", key)
-                snaps = {k: snapshot(c) for k, c in results.items()}
-                for k in ("cli_file", "cli_python", "cli_toml"):
-                    if k in snaps:
-                        snaps[k].pop("application_path", None)
-                ref = snaps["mapping"]
-                ctx.evaluations += len(snaps)
+                toks = _cli_tokens(actions.get(key_dest.get(key)), key, pv) if key_dest.get(key) in actions else None
+                if toks is not None:
+                    results["cli_flag"] = _load(run_main, toks + ([v] if key == "application_path" else ["app:app"]))
+                elif key in key_dest:
+                    ctx.count("loaders.cli_flag_cannot_spell", key)
                 vclass = "literal" if pv.imports == "" else _attr_kind(v) + ":" + type(v).__name__
                 ctx.count("loaders.value", vclass)
+                if key in unreadable:
+                    ctx.count("loaders.unreadable_key", key)
                 case = {"family": "loaders", "key": key, "value": _jv(v), "expr": pv.expr, "imports": pv.imports}
+                # a loader that raises on a setting of the documented type does not load it
+                for lname in [k for k, c in results.items() if isinstance(c, Failed)]:
+                    ctx.violation("loader_rejected", dict(case, loader=lname), results[lname].error, {"family": "loaders", "loader": lname, "key": key})
+                    del results[lname]
+                ctx.evaluations += len(results)
+                if "mapping" not in results:
+                    continue
+                snaps = {k: snapshot(c) for k, c in results.items()}
+                for k in ("cli_file", "cli_python", "cli_toml", "cli_flag"):
+                    if k in snaps and not (k == "cli_flag" and key == "application_path"):
+                        snaps[k].pop("application_path", None)       # the positional argument of main(), always "app:app" here
+                ref = snaps["mapping"]
                 for lname, s in snaps.items():
                     ctx.count("loaders.loader", lname)
                     ctx.distinct(["loader", lname, key, vclass])
+                    if key == "application_path" and lname in ("cli_file", "cli_python", "cli_toml"):
+                        continue        # main()'s positional argument is the command line's own value for this setting: it wins over the file
                     if s != ref:
                         diff = {a: (ref.get(a), s.get(a)) for a in set(ref) | set(s) if ref.get(a) != s.get(a)}
                         ctx.violation("loaders_agree", dict(case, loader=lname), diff, {"family": "loaders", "loader": lname})
-                # the setting itself took effect (through the public attribute) — for every loader
-                want = v
+                # the setting itself took effect (through the public attribute; for a write-only setting: through the
+                # attribute its setter is documented to store) — for every loader
+                attr, want = key, v
                 if key in ("bind", "insecure_bind", "quic_bind") and isinstance(v, str):
                     want = [v]
                 if key == "root_path":
                     want = v.rstrip("/")
+                if key in WRITE_ONLY:
+                    attr, want = WRITE_ONLY[key][0], WRITE_ONLY[key][1](v)
                 for lname, cfg in results.items():
-                    got = getattr(cfg, key)
+                    if key == "application_path" and lname in ("cli_file", "cli_python", "cli_toml"):
+                        continue
+                    got = getattr(cfg, attr, MISSING)
                     if key == "root_path" and got.endswith("/"):
                         ctx.violation("root_path_trailing_slash", dict(case, loader=lname), got, {"family": "loaders", "key": "root_path"})
-                    if not (got is want or (pv.imports == "" and got == want)):
-                        ctx.violation("setting_effect", dict(case, loader=lname), {"got": repr(got), "want": repr(want)},
+                    if not (got is want or (pv.imports == "" and got is not MISSING and got == want and type(got) is type(want))):
+                        ctx.violation("setting_effect", dict(case, loader=lname), {"attribute": attr, "got": "<not set>" if got is MISSING else repr(got), "want": repr(want)},
                                       {"family": "loaders", "key": key, "loader": lname})
                     if key == "logger_class":
                         # the effect of the setting: the server's logger (`config.log`) is built by the given class / factory
@@ -445,19 +574,30 @@ def check_loaders(ctx: Ctx) -> None:
                         if made_by != "QuietLogger":
                             ctx.violation("setting_effect", dict(case, loader=lname), {"config.log built by": made_by, "want": "QuietLogger"},
                                           {"family": "loaders", "key": key, "loader": lname, "effect": "config.log"})
+                    if key in TLS_KEYS:
+                        # the effect of the setting: the TLS context the server builds asks for client certificates as configured
+                        eff = _load(_tls_effect, cfg)
+                        idx = 0 if TLS_KEYS[key] == "verify_mode" else 1
+                        if isinstance(eff, Failed) or eff[idx] != want:
+                            ctx.violation("setting_effect", dict(case, loader=lname),
+                                          {"ssl context": eff.error if isinstance(eff, Failed) else repr(eff[idx]), "want": repr(want)},
+                                          {"family": "loaders", "key": key, "loader": lname, "effect": "ssl_context"})
+                        ctx.count("loaders.tls_context_effect", key)
                 ctx.sample(case, cap=3)
                 # correspondence: the stored attributes, against the model's from_mapping / from_object on what the loader sees
+                # (a dunder key is stored like any other; `log` is a read-only property: skipped silently)
                 reqs.append({"cmd": "c19.from_mapping", "items": [[key, _jv(v)], ["__dunder__", 1], ["log", 1]]})
-                metas.append((dict(case, loader="mapping"), Config.from_mapping({key: v, "__dunder__": 1, "log": 1})))
-                for lname in ("object", "class", "module"):
-                    reqs.append({"cmd": "c19.from_object", "items": _model_attrs(objs[lname])})
-                    metas.append((dict(case, loader=lname), results[lname]))
+                metas.append((dict(case, loader="mapping"), _load(Config.from_mapping, {key: v, "__dunder__": 1, "log": 1})))
+                for lname in ("object", "class", "instance", "module"):
+                    if lname in results:
+                        reqs.append({"cmd": "c19.from_object", "items": _model_attrs(objs[lname])})
+                        metas.append((dict(case, loader=lname), results[lname]))
         # an object that also carries things that are not settings: a helper function, a class, a module, a dunder name
         mod = importlib.import_module(helper)
         extra = type("WithHelpers", (), {})()
         extra.workers, extra.helper, extra.Helper, extra.os, extra.__private__ = 3, mod.make_logger, mod.QuietLogger, os, 1
         reqs.append({"cmd": "c19.from_object", "items": _model_attrs(extra)})
-        metas.append(({"family": "loaders", "key": "workers", "value": 3, "loader": "object+helpers"}, Config.from_object(extra)))
+        metas.append(({"family": "loaders", "key": "workers", "value": 3, "loader": "object+helpers"}, _load(Config.from_object, extra)))
     finally:
         sys.path.remove(str(tmp))
         for m in made:
@@ -474,10 +614,14 @@ def check_loaders(ctx: Ctx) -> None:
     if model is not None:
         for m, (case, cfg) in zip(model, metas):
             ctx.disagreements_checked += 1
+            what = "c19." + ("from_mapping" if case["loader"] == "mapping" else "from_object")
+            if isinstance(cfg, Failed):
+                ctx.disagree(what, case, m.get("ok"), {"raised": cfg.error})
+                continue
             store = dict((k, val) for k, val in m.get("ok", []))
             impl = {k: _jv(val) for k, val in vars(cfg).items() if k != "_log"}
             if json.loads(json.dumps(impl)) != store:
-                ctx.disagree("c19." + ("from_mapping" if case["loader"] == "mapping" else "from_object"), case, store, impl)
+                ctx.disagree(what, case, store, impl)
 
 
 # --------------------------------------------------------------------------------------------------------------
@@ -485,6 +629,12 @@ def check_loaders(ctx: Ctx) -> None:
 # --------------------------------------------------------------------------------------------------------------
 HOSTS4 = ["127.0.0.1", "0.0.0.0", "localhost", "a-b.example", "unixx", "fd", "x"]
 HOSTS6 = ["::", "::1", "fe80::1", "2001:db8::8a2e:370:7334"]
+# IPv6 literals given as a bare host WITHOUT brackets: what stands behind the last colon is no decimal number, so the string
+# cannot be read as host:port - it is a bare host, and an IPv6 one
+HOSTS6_BARE = ["::", "fe80::a", "2001:db8::beef", "::ffff:192.0.2.1", "fe80::1%eth0", "1::", "::ffff:c000:2a1", "2001:db8:0:0:0:0:0:a"]
+# ... and the spellings that are of the shape host:port as well (the last group is decimal): the syntax reads them as
+# host:port (as it reads `unix:80` as a path); whichever reading, the host that is bound contains a colon: AF_INET6
+HOSTS6_AMBIGUOUS = ["::1", "fe80::1", "2001:db8::8a2e:370:7334", "::ffff:c000:201"]
 
 
 def gen_binds(ctx: Ctx) -> List[dict]:
@@ -500,13 +650,21 @@ def gen_binds(ctx: Ctx) -> List[dict]:
             p = rng.choice([0, 1, 443, 65535, rng.randint(1, 65535)])
             out.append({"family": "bind", "bind": f"[{h}]:{p}", "shape": "[v6]:port"})
         out.append({"family": "bind", "bind": f"[{h}]", "shape": "[v6]"})
+    for h in HOSTS6_BARE:
+        out.append({"family": "bind", "bind": h, "shape": "bare-v6"})
+    for h in HOSTS6_AMBIGUOUS:
+        out.append({"family": "bind", "bind": h, "shape": "bare-v6/host:port"})
     for path in ["/tmp/x.sock", "rel.sock", "/a:b", ""]:
         out.append({"family": "bind", "bind": f"unix:{path}", "shape": "unix"})
     out.append({"family": "bind", "bind": "fd://", "shape": "fd"})
+    # the same parser serves `bind` / `insecure_bind` (stream sockets) and `quic_bind` (datagram sockets)
+    for c in list(out):
+        if c["shape"] not in ("fd", "unix") and (c["shape"] != "host:port" or rng.random() < 0.3):
+            out.append(dict(c, type="dgram"))
     return out
 
 
-def _record_bind(bind: str):
+def _record_bind(bind: str, type_: int = socket.SOCK_STREAM):
     """Run the real `_create_sockets` with a recording socket class: returns what it asked the OS for."""
     import hypercorn.config as hc
     rec: Dict[str, Any] = {}
@@ -539,7 +697,7 @@ def _record_bind(bind: str):
     orig = hc.socket
     hc.socket = fake
     try:
-        hc.Config()._create_sockets([bind])
+        hc.Config()._create_sockets([bind], type_)
     finally:
         hc.socket = orig
     return rec
@@ -553,14 +711,15 @@ def check_binds(ctx: Ctx, cases: List[dict]) -> None:
             obs.append(None)
             continue
         try:
-            obs.append(_record_bind(b))
+            obs.append(_record_bind(b, socket.SOCK_DGRAM if c.get("type") == "dgram" else socket.SOCK_STREAM))
         except Exception as e:
             obs.append({"error": repr(e)})
     model = ctx.model([{"cmd": "c19.bind", "bind": c["bind"]} for c in cases])
     for i, (c, o) in enumerate(zip(cases, obs)):
         ctx.evaluations += 1
         ctx.count("bind.shape", c["shape"])
-        ctx.distinct(["bind", c["shape"], c["bind"].rsplit(":", 1)[0]])
+        ctx.count("bind.type", c.get("type", "stream"))
+        ctx.distinct(["bind", c["shape"], c["bind"].rsplit(":", 1)[0], c.get("type", "stream")])
         ctx.sample(c, cap=3)
         if o is None:
             continue
@@ -579,11 +738,22 @@ def check_binds(ctx: Ctx, cases: List[dict]) -> None:
             want = (socket.AF_INET6, (h, int(p)))
         elif c["shape"] == "[v6]":
             want = (socket.AF_INET6, (b[1:-1], 8000))
+        elif c["shape"] == "bare-v6":
+            want = (socket.AF_INET6, (b, 8000))
+        elif c["shape"] == "bare-v6/host:port":
+            h, p = b.rsplit(":", 1)
+            want = (socket.AF_INET6, (h, int(p)))
+            if o.get("bind") == (b, 8000):
+                want = (socket.AF_INET6, (b, 8000))          # the bare-host reading of the same string
         else:
             want = (socket.AF_UNIX, b[5:])
-        if (o.get("family"), o.get("bind")) != want or o.get("type") != socket.SOCK_STREAM:
-            ctx.violation("bind_parse", c, {"got": [int(o.get("family", -1)), o.get("bind")], "want": [int(want[0]), want[1]]},
+        want_type = socket.SOCK_DGRAM if c.get("type") == "dgram" else socket.SOCK_STREAM
+        if (o.get("family"), o.get("bind")) != want or o.get("type") != want_type:
+            ctx.violation("bind_parse", c, {"got": [int(o.get("family", -1)), o.get("bind"), int(o.get("type", -1))], "want": [int(want[0]), want[1], int(want_type)]},
                           {"family": "bind", "shape": c["shape"]})
+        # whatever the spelling: the host that is bound decides the family (an address with a colon is an IPv6 address)
+        if isinstance(o.get("bind"), tuple) and (o.get("family") == socket.AF_INET6) != (":" in o["bind"][0]):
+            ctx.violation("bind_family", c, {"family": int(o.get("family", -1)), "bound": o.get("bind")}, {"family": "bind", "shape": c["shape"]})
         if model is not None:
             ctx.disagreements_checked += 1
             m = model[i].get("ok", {})
@@ -606,12 +776,27 @@ def check_real_sockets(ctx: Ctx) -> None:
     for _ in range(4):
         trials.append((f"127.0.0.1:{rng.randint(20000, 60000)}", socket.AF_INET))
     trials.append(("127.0.0.1", socket.AF_INET))  # port 8000 may be taken: tolerated below
+    v6 = False
     if socket.has_ipv6:
+        try:
+            probe = socket.socket(socket.AF_INET6, socket.SOCK_STREAM)
+            probe.bind(("::1", 0))
+            probe.close()
+            v6 = True
+        except OSError:
+            ctx.count("sockets.oserror", "no usable IPv6 on this machine")
+    if v6:
         trials.append((f"[::1]:{rng.randint(20000, 60000)}", socket.AF_INET6))
+        trials.append(("::", socket.AF_INET6))             # bare IPv6 host without brackets (port 8000 may be taken: tolerated below)
+        trials.append(("[::1]", socket.AF_INET6))
     trials.append((f"unix:{tmpd}/s.sock", socket.AF_UNIX))
     for bind, fam in trials:
         try:
             socks = Config()._create_sockets([bind])
+        except socket.gaierror as e:
+            # the address cannot be resolved for the family the socket was created with
+            ctx.violation("socket_created", {"family": "socket", "bind": bind}, repr(e), {"family": "socket", "error": "gaierror"})
+            continue
         except OSError as e:
             ctx.count("sockets.oserror", type(e).__name__)
             continue
@@ -622,7 +807,7 @@ def check_real_sockets(ctx: Ctx) -> None:
         ok = s.family == fam and s.type == socket.SOCK_STREAM
         if fam == socket.AF_UNIX:
             ok = ok and name == bind[5:]
-        elif ":" in bind.replace("[::1]", ""):
+        elif bind not in ("::", "[::1]") and ":" in bind.replace("[::1]", ""):
             ok = ok and name[1] == int(bind.rsplit(":", 1)[1])
         if not ok:
             ctx.violation("socket_created", {"family": "socket", "bind": bind}, {"family": int(s.family), "name": name}, {"family": "socket"})
